@@ -19,6 +19,8 @@ pub struct Secrets {
     pub header_len: usize,
 }
 
+static BUILD_VARIANT: std::sync::atomic::AtomicUsize = std::sync::atomic::AtomicUsize::new(0);
+
 fn fixed_secret(i: u64) -> StaticSecret {
     let mut r = Rng::new(0xC07 + i);
     let mut b = [0u8; 32];
@@ -34,8 +36,34 @@ pub fn build_fixed(layers: u8, recipients: &[PublicKey], files: &[(Vec<u8>, Vec<
 /// The same with the recipients handed to the configuration in `calls` successive
 /// `add_public_keys` calls (one per key file, as a caller loading several files does).
 pub fn build_fixed_calls(layers: u8, recipients: &[PublicKey], files: &[(Vec<u8>, Vec<u8>)], calls: usize) -> Result<Secrets, String> {
-    let mut cfg = ArchiveWriterConfig::new();
-    cfg.set_layers(layers_of(layers));
+    // the configuration is reached through the different builder paths a caller may take (they
+    // must all give a fresh key and nonce), and the writer is flushed between files in every other archive
+    let variant = BUILD_VARIANT.fetch_add(1, std::sync::atomic::Ordering::Relaxed) % 4;
+    let mut cfg = match variant {
+        0 => {
+            let mut c = ArchiveWriterConfig::new();
+            c.set_layers(layers_of(layers));
+            c
+        }
+        1 => {
+            // start from the default (both layers), switch everything off, switch on what is wanted
+            let mut c = ArchiveWriterConfig::default();
+            c.disable_layer(mla::Layers::ENCRYPT);
+            c.disable_layer(mla::Layers::COMPRESS);
+            c.enable_layer(layers_of(layers));
+            c
+        }
+        2 => {
+            let mut c = ArchiveWriterConfig::new();
+            c.enable_layer(layers_of(layers));
+            c
+        }
+        _ => {
+            let mut c = ArchiveWriterConfig::default();
+            c.set_layers(layers_of(layers));
+            c
+        }
+    };
     let per = (recipients.len() + calls.max(1) - 1) / calls.max(1);
     for part in recipients.chunks(per.max(1)) {
         cfg.add_public_keys(part);
@@ -46,9 +74,16 @@ pub fn build_fixed_calls(layers: u8, recipients: &[PublicKey], files: &[(Vec<u8>
     for (n, c) in files {
         let name = String::from_utf8(n.clone()).map_err(|_| "utf8")?;
         w.add_file(&name, c.len() as u64, c.as_slice()).map_err(|e| format!("{e:?}"))?;
+        if variant % 2 == 1 {
+            w.flush().map_err(|e| format!("flush: {e:?}"))?;
+        }
     }
     w.finalize().map_err(|e| format!("{e:?}"))?;
     let bytes = w.into_raw();
+    // whatever the builder path, the key and nonce in use are not a constant
+    if key.iter().all(|b| *b == 0) || nonce_cfg.iter().all(|b| *b == 0) {
+        return Err(format!("the configuration (builder path {variant}) holds an all-zero key or nonce"));
+    }
     let mut c = Cursor::new(bytes.as_slice());
     ArchiveHeader::from(&mut c).map_err(|e| format!("{e:?}"))?;
     let header_len = c.position() as usize;
